@@ -4,7 +4,7 @@
    modes are an oracle (kr.smooth_ranking of the cluster, contains np.corrcoef), the lower hull is an oracle
    index list (convex_hull.graham_scan_lower), the sums of shortest distances of hull mode are an oracle keyed
    by absolute inclusive index ranges, np.argsort is a parameter (`sorter`: any permutation that sorts).
-   py: postprocessing.py:130-247 filter_clusters; 250-276 filter_clusters_corners; 462-482 rank_corners_triangle;
+   py: postprocessing.py:130-249 filter_clusters; 252-278 filter_clusters_corners; 464-484 rank_corners_triangle;
        knee_ranking.py:101-127 distance_to_similarity, rank *)
 From Coq Require Import List Arith Bool ZArith.
 From Knee Require Import Num NpList.
@@ -43,7 +43,7 @@ Fixpoint argmax_nat_go (l : list nat) (i best bi : nat) : nat :=
 Definition argmax_nat (l : list nat) : nat :=
   match l with [] => 0 | x :: l' => argmax_nat_go l' 1 x 0 end.
 
-(* collect the per-cluster results: py: postprocessing.py:237-238, 247 *)
+(* collect the per-cluster results: py: postprocessing.py:239-240, 249 *)
 Fixpoint collect (ps : list pick) : option (list nat) :=
   match ps with
   | [] => Some []
@@ -63,24 +63,27 @@ Section ClusterFilter.
   Definition xat (i : nat) : T N := nth i xs zero.
   Definition yat (i : nat) : T N := nth i ys zero.
 
-  (* py: postprocessing.py:221-226  rank, then np.argmax of the ranks *)
+  (* py: postprocessing.py:223-228  rank, then np.argmax of the ranks *)
   Definition pick_index (r : list (T N)) : nat := argmax_nat (rank_of (sorter r)).
 
   (* py: postprocessing.py:173-174 hull[(hull>=a)*(hull<=b)] *)
   Definition hull_within (a b : nat) : list nat := filter (fun h => (a <=? h) && (h <=? b)) hull.
 
-  (* py: postprocessing.py:180-199 the error of splitting the cluster's neighbourhood at member j *)
+  (* py: postprocessing.py:180-201 the error of splitting the cluster's neighbourhood at member j;
+     lo, hi = max(a-1, 0), min(b+1, len(points)-1)  (nat subtraction is the clamp at 0) *)
   Definition hull_error (a b j : nat) : T N :=
-    let len := xat (b + 1) -! xat (a - 1) in
-    let length_l := (xat j -! xat (a - 1)) /! len in
-    let length_r := (xat (b + 1) -! xat j) /! len in
-    (sdist (a - 1) j *! length_l) +! (sdist j (b + 1) *! length_r).
+    let lo := a - 1 in
+    let hi := Nat.min (b + 1) (length xs - 1) in
+    let len := xat hi -! xat lo in
+    let length_l := (xat j -! xat lo) /! len in
+    let length_r := (xat hi -! xat j) /! len in
+    (sdist lo j *! length_l) +! (sdist j hi *! length_r).
 
   (* Python's builtin max over a float array: keeps the first element unless a later one is greater *)
   Definition py_max_list (l : list (T N)) : T N :=
     match l with [] => zero | v :: l' => fold_left pymax l' v end.
 
-  (* py: postprocessing.py:171-213 *)
+  (* py: postprocessing.py:171-215 *)
   Definition hull_rankings (c : list nat) : option (list (T N)) :=
     let a := hd 0 c in
     let b := last c 0 in
@@ -96,7 +99,7 @@ Section ClusterFilter.
         Some (map (fun v => pm -! v) raw2)
     end.
 
-  (* py: postprocessing.py:164-238 one cluster *)
+  (* py: postprocessing.py:164-240 one cluster *)
   Definition cluster_pick (m : fmode) (c : list nat) : pick :=
     match c with
     | [] => PErr                                      (* knees[clusters == i][0] on an empty selection: IndexError *)
@@ -108,23 +111,23 @@ Section ClusterFilter.
         end
     end.
 
-  (* py: postprocessing.py:130-247 *)
+  (* py: postprocessing.py:130-249 *)
   Definition filter_clusters (m : fmode) (labels knees : list nat) : option (list nat) :=
     if length knees <=? 1 then Some knees
     else collect (map (fun i => cluster_pick m (members labels knees i)) (seq 0 (S (max_label labels)))).
 
-  (* py: postprocessing.py:476-480  0.5*((pt[1][0]-pt[0][0])*(pt[1][1]-pt[2][1])) *)
+  (* py: postprocessing.py:478-482  0.5*((pt[1][0]-pt[0][0])*(pt[1][1]-pt[2][1])) *)
   Definition tri_score (k : nat) : T N :=
     half *! ((xat k -! xat (k - 1)) *! (yat k -! yat (k + 1))).
 
-  (* py: postprocessing.py:270-275 *)
+  (* py: postprocessing.py:271-277 *)
   Definition corner_pick (c : list nat) : pick :=
     match c with
     | [] => PErr                                      (* np.argmax of an empty array: ValueError *)
     | _ => match nth_error c (argmax (map tri_score c)) with Some k => PSome k | None => PErr end
     end.
 
-  (* py: postprocessing.py:250-276 *)
+  (* py: postprocessing.py:252-278 *)
   Definition filter_clusters_corners (labels knees : list nat) : option (list nat) :=
     match knees with
     | [] => None                                      (* clustering / clusters.max() on an empty array raises *)
